@@ -31,6 +31,11 @@ pub broadcast axiom fn ax_eq_val(a: f64, b: f64)
 pub broadcast group f64_axioms { ax_add_req, ax_sub_req, ax_mul_req, ax_div_req, ax_obeys, ax_add_val, ax_sub_val, ax_mul_val, ax_div_val, ax_cmp_val, ax_eq_val }
 
 pub axiom fn ax_lit_0() ensures fin(0.0f64), rv(0.0f64) == 0real;
+pub axiom fn ax_lit_1() ensures fin(1.0f64), rv(1.0f64) == 1real;
+pub axiom fn ax_lit_2() ensures fin(2.0f64), rv(2.0f64) == 2real;
+pub axiom fn ax_lit_3() ensures fin(3.0f64), rv(3.0f64) == 3real;
+pub axiom fn ax_lit_50() ensures fin(50.0f64), rv(50.0f64) == 50real;
+pub axiom fn ax_lit_100() ensures fin(100.0f64), rv(100.0f64) == 100real;
 
 #[verifier::external_body]
 pub fn usize_as_f64(n: usize) -> (r: f64) ensures fin(r), rv(r) == n as real { n as f64 }
